@@ -72,15 +72,19 @@ def list_key(marker: str) -> str:
 
 def expected_after_faults(twin_markers: List[str], sites: List[int]) -> List[str]:
     """Twin marker sequence with the remainder of each faulted list removed."""
+    # `sites` are occurrence indexes among the calls the FAULTED run makes (that is what the injector counts): markers
+    # skipped because an earlier fault cut their list are never called and do not advance the index
     out: List[str] = []
     skip_key: Optional[str] = None
-    for i, m in enumerate(twin_markers):
+    call = -1
+    for m in twin_markers:
         if skip_key is not None:
             if list_key(m) == skip_key:
                 continue
             skip_key = None
+        call += 1
         out.append(m)
-        if i in sites:
+        if call in sites:
             skip_key = list_key(m)
     return out
 
